@@ -5,6 +5,8 @@
 package parser
 
 import (
+	"os"
+	"path/filepath"
 	"strings"
 
 	"github.com/rs/zerolog"
@@ -81,3 +83,91 @@ func BoundedDefinitions(in string) string {
 }
 
 func strconvQuote(s string) string { return "\"" + strings.ReplaceAll(s, "\n", "\\n") + "\"" }
+
+var boundedDir string
+
+func boundedFile(name, content string) string {
+	if boundedDir == "" {
+		d, err := os.MkdirTemp("", "govc-bounded-")
+		if err != nil {
+			panic(err)
+		}
+		boundedDir = d
+	}
+	p := filepath.Join(boundedDir, name)
+	if err := os.WriteFile(p, []byte(content), 0o644); err != nil {
+		panic(err)
+	}
+	return p
+}
+
+// BoundedIncludeExcept (C06): the input is a sequence of lines, each marked F (include file)
+// or X (the one exclude file). `##!> include-except F X` must contribute exactly the entries
+// of F (expanded with F's definitions) that are not an entry of X, X being expanded with F's
+// definitions first and with its own definitions only for names F does not define; in F's
+// order; the same in every one of 4 fresh runs. Inputs in which F holds the same expanded
+// entry twice are outside the domain of this stand-in (skipped).
+//@ directive[C06] bounded BoundedIncludeExcept quick=4 thorough=5 tokens="F##!> define s A\n" "Fu{{s}}v\n" "Fw\n" "Fu{{t}}v\n" "X##!> define s B\n" "X##!> define t A\n" "Xu{{s}}v\n" "XuAv\n" "Xw\n" "Xu{{t}}v\n"
+
+func BoundedIncludeExcept(in string) string {
+	zerolog.SetGlobalLevel(zerolog.Disabled)
+	var fText, xText strings.Builder
+	defsF := map[string]string{}
+	defsX := map[string]string{}
+	var entF, entX []string
+	for _, l := range strings.Split(in, "\n") {
+		if l == "" {
+			continue
+		}
+		which, l := l[0], l[1:]
+		defs, text, ents := defsF, &fText, &entF
+		if which == 'X' {
+			defs, text, ents = defsX, &xText, &entX
+		}
+		text.WriteString(l + "\n")
+		if strings.HasPrefix(l, "##!> define ") {
+			f := strings.Fields(l)
+			if _, dup := defs[f[2]]; !dup {
+				defs[f[2]] = f[3]
+			}
+		} else {
+			*ents = append(*ents, l)
+		}
+	}
+	for n, v := range defsF { // X is parsed with F's definitions
+		defsX[n] = v
+	}
+	subst := func(u string, defs map[string]string) string {
+		for n, v := range defs {
+			u = strings.ReplaceAll(u, "{{"+n+"}}", v)
+		}
+		return u
+	}
+	excluded := map[string]bool{}
+	for _, e := range entX {
+		excluded[subst(e, defsX)] = true
+	}
+	seen := map[string]bool{}
+	var want strings.Builder
+	for _, e := range entF {
+		e = subst(e, defsF)
+		if seen[e] {
+			return "" // duplicate entries in F: outside the domain of this stand-in
+		}
+		seen[e] = true
+		if !excluded[e] {
+			want.WriteString(e + "\n")
+		}
+	}
+	f := boundedFile("f.ra", fText.String())
+	x := boundedFile("x.ra", xText.String())
+	for run := 0; run < 4; run++ {
+		ctx := processors.NewContext(context.New("/nonexistent-root", "toolchain.yaml"))
+		p := NewParser(ctx, strings.NewReader("##!> include-except "+f+" "+x+"\n"))
+		out, _ := p.Parse(false)
+		if out.String() != want.String() {
+			return "include-except gives " + strconvQuote(out.String()) + ", the entries of F in no X are " + strconvQuote(want.String()) + " (F: " + strconvQuote(fText.String()) + ", X: " + strconvQuote(xText.String()) + ")"
+		}
+	}
+	return ""
+}
